@@ -18,6 +18,6 @@ CONSTANTS
   AbandonKeepsTargetId = FALSE
   DirectStaysActive = FALSE
   StaleInsertAfterScrub = FALSE
-INVARIANTS TypeOK Routing FinalIsFinal UniqueIds IdRange WireUnique Protected AllocAgrees NoLeak MapsSubsetUsed StreamOK FailFast UnbindCloses
+INVARIANTS TypeOK Routing FinalIsFinal UniqueIds IdRange WireUnique Protected RoutedProtected AllocAgrees NoLeak MapsSubsetUsed StreamOK FailFast UnbindCloses
 PROPERTIES TimeoutKeepsConn DeliveredSurvives
 CHECK_DEADLOCK FALSE
